@@ -642,3 +642,38 @@ func (g *Graph) PassesWithin(start *cfg.Block, lo, hi token.Pos, pass func(ast.N
 	}
 	return walk(start)
 }
+
+// Branch returns an edge filter that, at the block ending in condition atom cond, follows only the
+// successor taken when the condition evaluates to val.
+func (g *Graph) Branch(cond ast.Node, val bool) EdgeFilter {
+	pc, ok := g.loc[cond]
+	want := 1
+	if val {
+		want = 0
+	}
+	return func(from *cfg.Block, i int) bool {
+		if ok && int(from.Index) == pc.Block {
+			return i == want
+		}
+		return true
+	}
+}
+
+// Implies reports whether "cond evaluates to outcome" implies that some leaf of cond (reached through
+// parentheses, negations, conjunctions taken true and disjunctions taken false) satisfies leaf(e, val),
+// where val is the truth value that leaf expression must then have.
+func Implies(cond ast.Expr, outcome bool, leaf func(e ast.Expr, val bool) bool) bool {
+	switch x := cond.(type) {
+	case *ast.ParenExpr:
+		return Implies(x.X, outcome, leaf)
+	case *ast.UnaryExpr:
+		if x.Op == token.NOT {
+			return Implies(x.X, !outcome, leaf)
+		}
+	case *ast.BinaryExpr:
+		if (x.Op == token.LAND && outcome) || (x.Op == token.LOR && !outcome) {
+			return Implies(x.X, outcome, leaf) || Implies(x.Y, outcome, leaf)
+		}
+	}
+	return leaf(cond, outcome)
+}
